@@ -22,14 +22,16 @@ ClassesAll == {
   C("dt_tz", 64, FALSE, "NAT", FALSE, TRUE, TRUE),
   C("td_ns", 64, FALSE, "NAT", FALSE, TRUE, FALSE),
   C("cat_str", 8, FALSE, "CAT", TRUE, TRUE, FALSE),  C("cat_int", 8, FALSE, "CAT", TRUE, TRUE, FALSE),
+  \* ordered categoricals whose declared category order differs from the order of the label values
+  C("cat_str_ord", 8, FALSE, "CAT", TRUE, TRUE, FALSE),  C("cat_int_ord", 8, FALSE, "CAT", TRUE, TRUE, FALSE),
   C("Int8", 32, FALSE, "MASK", FALSE, TRUE, TRUE),   C("Int32", 32, FALSE, "MASK", FALSE, TRUE, TRUE),
   C("Int64", 64, FALSE, "MASK", FALSE, TRUE, TRUE),  C("UInt16", 32, FALSE, "MASK", FALSE, TRUE, TRUE),
   C("UInt64", 64, FALSE, "MASK", FALSE, TRUE, TRUE), C("boolean", 1, FALSE, "MASK", FALSE, TRUE, FALSE) }
 
 ClassesCore == {c \in ClassesAll : c.name \in {"bool", "int8", "int64", "uint64", "float64", "obj_str", "obj_str_e", "dt_ns",
-                                                 "dt_tz", "cat_str", "Int64", "boolean"}}
+                                                 "dt_tz", "cat_str", "cat_int_ord", "Int64", "boolean"}}
 (* row counts around 64 and 8192, where the framing of the level block changes, on a reduced option product *)
-ClassesBig == {c \in ClassesAll : c.name \in {"int64", "float64", "obj_str", "cat_str", "Int64"}}
+ClassesBig == {c \in ClassesAll : c.name \in {"int64", "float64", "obj_str", "cat_str", "Int64", "bool", "boolean", "dt_s"}}
 RowsBig == {63, 64, 65, 100}
 RowsHuge == {8191, 8192, 8193}
 PatsBig == {"none", "last"}
@@ -55,6 +57,14 @@ RgoThorough == {0, 2, 3}
 StatsAll == {"true", "false", "auto"}
 StatsQuick == {"true", "auto"}
 V12 == {1, 2}
+CodecNone == {"none"}
+CodecsAll == {"none", "SNAPPY", "GZIP", "ZSTD", "LZ4", "BROTLI"}
+CodecsSome == {"none", "SNAPPY", "GZIP"}
+(* every dtype class x codec x page version on a small option product (the code paths that depend on the dtype: *)
+(* conversion on write, in-place / decompress-into reads, unit scaling of times)                                *)
+RowsTypes == {0, 3, 9}
+PatsTypes == {"none", "last"}
+RppTypes == {100, 4}
 
 Bool(b) == IF b THEN 1 ELSE 0
 PageJson(pg) == [nvals |-> pg.nvals, nnulls |-> pg.nnulls, def |-> pg.def, enc |-> pg.enc]
@@ -63,7 +73,7 @@ RgJson(g) == [start |-> g.start, len |-> g.len, optional |-> Bool(g.optional), d
               hasmm |-> Bool(g.hasmm), min |-> g.min, max |-> g.max]
 CaseJson == [cls |-> inp.cls.name, n |-> inp.n, nullpat |-> inp.nullpat, valpat |-> inp.valpat, mode |-> inp.mode,
              rppwant |-> inp.rppwant, pagebytes |-> PageBytes(inp), rpp |-> Rpp(inp), v |-> inp.v, rgo |-> inp.rgo,
-             stats |-> inp.stats, rejected |-> Bool(pc = "rejected"), optional |-> Bool(Optional(inp)),
+             stats |-> inp.stats, codec |-> inp.codec, rejected |-> Bool(pc = "rejected"), optional |-> Bool(Optional(inp)),
              rgs |-> [g \in DOMAIN rgs |-> RgJson(rgs[g])],
              cells |-> [i \in 1..inp.n |-> Decoded(i)]]
 Export == pc \in {"done", "rejected"} => PrintT(ToJson(CaseJson))
